@@ -11,7 +11,7 @@ def algOk (a : ProtAlg) : Bool := match a with | .assigned n => n == -7 | _ => t
 /-- C03: Valid iff everything the statement lists holds -/
 def issuerValidExpected (f : Facts) : Bool :=
   f.decrypts && f.decodes && f.hasDocuments && f.hasMdlDoc && f.x5chainPresent && f.x5chainParses &&
-  f.namespacesPresent && f.coreNamespacePresent && f.chainErrors == 0 && f.issuerKeyParses && algOk f.issuerAlg &&
+  f.chainErrors == 0 && f.issuerKeyParses && algOk f.issuerAlg &&
   f.issuerPayloadAttached && f.issuerSigParses && f.issuerSigAccepts &&
   f.msoDecodes && f.docTypeMatches && f.digestsMatch
 
@@ -25,7 +25,7 @@ def c04Ok (f : Facts) (issuer : Status) : Bool :=
 /-- C05 -/
 def deviceValidExpected (f : Facts) : Bool :=
   f.decrypts && f.decodes && f.hasDocuments && f.hasMdlDoc && f.x5chainPresent && f.x5chainParses &&
-  f.namespacesPresent && f.coreNamespacePresent && f.issuerPayloadAttached && f.msoDecodes &&
+  f.issuerPayloadAttached && f.msoDecodes &&
   f.deviceKey == .p256 true && f.deviceAuthIsSignature && algOk f.deviceAlg && !f.devicePayloadAttached &&
   f.deviceSigParses && f.deviceSigAccepts
 
